@@ -606,6 +606,10 @@ impl<L: Flat + Length> DeepRead for FlatString<L> {
         for x in s.as_bytes() {
             write!(o, " {:#x}", x).unwrap();
         }
+        // C02: an accepted FlatString hands out a &str; core's own decoder is the reference for "is a str"
+        if core::str::from_utf8(s.as_bytes()).is_err() {
+            o.push_str(" !notutf8");
+        }
         o.push(')');
     }
     fn hop(&mut self, op: &HOp) -> String {
